@@ -88,6 +88,7 @@ fn case_for(p: &SPos, l: &Limits, cut: Cut) -> Case {
         // exactly what Uci::go does: the depth limit is also the iteration bound
         max_depth: l.depth.map(|d| d.try_into().unwrap_or(u8::MAX)),
         cut,
+        elapsed_ms: None,
     }
 }
 
@@ -327,7 +328,7 @@ pub fn selfplay(w: &Worker, tier: &str, idx: &mut usize, judge: &dyn Fn(&Worker,
                 break;
             }
             let l = Limits { depth: Some(depth), ..Default::default() };
-            let c = Case { fen: fen.clone(), history: history.clone(), limits: l, max_depth: Some(depth as u8), cut: Cut::ClockNever };
+            let c = Case { fen: fen.clone(), history: history.clone(), limits: l, max_depth: Some(depth as u8), cut: Cut::ClockNever , elapsed_ms: None };
             let out = searchrun::run(&board, &c, if ply == 0 { &fresh } else { &keep });
             w.count("selfplay_searches", 1);
             judge(w, &c, &pos, &out, ply);
@@ -441,7 +442,7 @@ fn replay_selfplay(case: &Case) -> Option<(Out, Pos)> {
     for k in 0..=case.history.len() {
         let h = case.history[..k].to_vec();
         let (board, pos, _) = searchrun::open(&case.fen, &h).ok()?;
-        let c = Case { fen: case.fen.clone(), history: h, limits: case.limits.clone(), max_depth: case.max_depth, cut: case.cut };
+        let c = Case { fen: case.fen.clone(), history: h, limits: case.limits.clone(), max_depth: case.max_depth, cut: case.cut , elapsed_ms: None };
         let out = searchrun::run(&board, &c, &Opts { clear_cache: k == 0, observe: false, neutral: false });
         last = Some((out, pos));
     }
